@@ -115,6 +115,11 @@ func vpC12_O3() {
 	rp := proof.RangeProofs[1][0]
 	d := vpBig("d")
 	vpAssume(d.Sign() != 0)
+	// history: the very proof object may have been verified once before it is altered
+	// (a verifier that re-verifies an object it holds must not rely on what it derived earlier)
+	if vpBool("verifiedBeforeAlteration") {
+		vpAssert("the honest proof verifies", proof.Verify(pk, ctx, nonce, false))
+	}
 	targets := []int{2, 3, 7, -1, 0}
 	switch vpChoose("tamper", 5) {
 	case 0: // untouched
